@@ -22,6 +22,8 @@ def plan(tier, focus, label):
             stride = 9 if ch in ('U1', 'Z3', 'U1xZ2') else 18
         if tier == 'quick' and (label not in ('CY',) or focus == 'C03'):
             stride *= 2  # secondary configurations (pure Python, other optimization levels) and the snapshot-heavy C03
+        if tier != 'quick' and label != 'CY' and focus in ('C02', 'C03'):
+            stride = 3  # thorough: every seed in the compiled default configuration, every third one in the others
         offset = (ci + {'C01': 0, 'C02': 1, 'C03': 2}[focus]) % stride
         chunk = 300 if tier == 'quick' else 100
         for a in range(0, n, chunk):
